@@ -175,15 +175,15 @@ theorem covSum_mono (d : Bytes) (lo hi : Nat) (hlt : lo < hi) (hhi : hi ≤ d.le
 
 /-! ### the parser's verdict as a conjunction -/
 
-theorem hrnpDec_iff (d : Bytes) (hf : Bool) :
-    hrnpDec d hf = .ok true ↔
+theorem hrnpDecOld_iff (d : Bytes) (hf : Bool) :
+    hrnpDecOld d hf = .ok true ↔
       12 ≤ d.length ∧ be16 ((d.take 10).drop 8) ≤ d.length ∧ hrnpOpcodes.contains (d.getD 3 0) = true
         ∧ hf = false ∧ hrnpChecksum (hrnpCovered d) = be16 ((d.take 12).drop 10) := by
   constructor
   · intro h
-    obtain ⟨h1, h2, h3⟩ := hrnpDec_true d hf h
+    obtain ⟨h1, h2, h3⟩ := hrnpDecOld_true d hf h
     refine ⟨h1, h2, ?_, ?_, h3⟩
-    · unfold hrnpDec at h
+    · unfold hrnpDecOld at h
       simp only [bind, Except.bind, pure, Except.pure] at h
       rw [if_neg (by omega), if_neg (by omega)] at h
       by_cases ho : hrnpOpcodes.contains (d.getD 3 0) = true
@@ -191,7 +191,7 @@ theorem hrnpDec_iff (d : Bytes) (hf : Bool) :
       · have hc : hrnpOpcodes.contains (d.getD 3 0) = false := by simpa using ho
         rw [hc] at h
         exact absurd h (by simp [throw, throwThe, MonadExceptOf.throw])
-    · unfold hrnpDec at h
+    · unfold hrnpDecOld at h
       simp only [bind, Except.bind, pure, Except.pure] at h
       rw [if_neg (by omega), if_neg (by omega)] at h
       cases hf with
@@ -202,7 +202,7 @@ theorem hrnpDec_iff (d : Bytes) (hf : Bool) :
         · exact absurd h (by simp [throw, throwThe, MonadExceptOf.throw])
   · rintro ⟨h1, h2, h3, h4, h5⟩
     subst h4
-    unfold hrnpDec
+    unfold hrnpDecOld
     simp only [bind, Except.bind, pure, Except.pure]
     rw [if_neg (by omega), if_neg (by omega)]
     unfold hrnpCovered at h5
@@ -210,9 +210,9 @@ theorem hrnpDec_iff (d : Bytes) (hf : Bool) :
     simp
 
 /-- the assertion the parser makes about the announced length -/
-theorem hrnpDec_too_short (d : Bytes) (hf : Bool) (h12 : 12 ≤ d.length)
-    (h : d.length < be16 ((d.take 10).drop 8)) : hrnpDec d hf = .error .assertionError := by
-  unfold hrnpDec
+theorem hrnpDecOld_too_short (d : Bytes) (hf : Bool) (h12 : 12 ≤ d.length)
+    (h : d.length < be16 ((d.take 10).drop 8)) : hrnpDecOld d hf = .error .assertionError := by
+  unfold hrnpDecOld
   simp only [bind, Except.bind, pure, Except.pure]
   rw [if_neg (by omega), if_pos h]
   rfl
@@ -245,24 +245,24 @@ theorem Relen.covSum {d d' : Bytes} {a c : Nat} (r : Relen d d' a c) (L : Nat) :
   unfold Integrity.covSum
   rw [r.front, r.payload]
 
-theorem hrnp_relen_aux (d d' : Bytes) (a c P Q : Nat) (hd : hrnpDec d false = .ok true) (r : Relen d d' a c)
+theorem hrnp_relen_aux (d d' : Bytes) (a c P Q : Nat) (hd : hrnpDecOld d false = .ok true) (r : Relen d d' a c)
     (hPdef : be16 ((d.take 10).drop 8) = P) (hQdef : a * 256 + c = Q) (hf : Bool) :
     (Q < P →
-      (hrnpDec d' hf = .ok true ↔ hf = false
+      (hrnpDecOld d' hf = .ok true ↔ hf = false
         ∧ (P - Q + lenTail d Q P) % 65535 = 0 ∧ Q + (words16 (d.take 8)).sum ≠ 0))
     ∧ (P < Q →
-      (hrnpDec d' hf = .ok true ↔ hf = false ∧ Q ≤ d.length
+      (hrnpDecOld d' hf = .ok true ↔ hf = false ∧ Q ≤ d.length
         ∧ (Q - P + lenTail d P Q) % 65535 = 0 ∧ P + (words16 (d.take 8)).sum ≠ 0)) := by
-  obtain ⟨h12, hP, hop, _, hck⟩ := (hrnpDec_iff d false).mp hd
+  obtain ⟨h12, hP, hop, _, hck⟩ := (hrnpDecOld_iff d false).mp hd
   rw [hPdef] at hP
   have hQ : be16 ((d'.take 10).drop 8) = Q := by rw [r.field, be16_pair, hQdef]
   have hsP : (words16 (hrnpCovered d)).sum = covSum d P := by
     rw [covered_sum d (by omega), hPdef]
   have hsQ : (words16 (hrnpCovered d')).sum = covSum d Q := by
     rw [covered_sum d' (by rw [r.len]; omega), hQ, r.covSum]
-  have key : hrnpDec d' hf = .ok true ↔ hf = false ∧ Q ≤ d.length
+  have key : hrnpDecOld d' hf = .ok true ↔ hf = false ∧ Q ≤ d.length
       ∧ fold16 (covSum d Q) = fold16 (covSum d P) := by
-    rw [hrnpDec_iff, r.len, hQ, r.opcode, r.check, ← hck, hrnpChecksum_eq_iff, hsP, hsQ]
+    rw [hrnpDecOld_iff, r.len, hQ, r.opcode, r.check, ← hck, hrnpChecksum_eq_iff, hsP, hsQ]
     constructor
     · rintro ⟨_, h2, _, h4, h5⟩; exact ⟨h4, h2, h5⟩
     · rintro ⟨h4, h2, h5⟩; exact ⟨h12, h2, hop, h4, h5⟩
@@ -299,14 +299,14 @@ theorem hrnp_relen_aux (d d' : Bytes) (a c P Q : Nat) (hd : hrnpDec d false = .o
 `d'` is the same buffer announcing `Q = a·256 + c`.  `d'` is accepted iff the HDAP stage does not raise,
 the buffer holds `Q` octets, the difference of the two lengths plus the word sum of the octets in between
 is a multiple of 65535, and the shorter range does not sum to zero. -/
-theorem hrnp_relen (d d' : Bytes) (a c : Nat) (hd : hrnpDec d false = .ok true) (r : Relen d d' a c)
+theorem hrnp_relen (d d' : Bytes) (a c : Nat) (hd : hrnpDecOld d false = .ok true) (r : Relen d d' a c)
     (hf : Bool) :
     (a * 256 + c < be16 ((d.take 10).drop 8) →
-      (hrnpDec d' hf = .ok true ↔ hf = false
+      (hrnpDecOld d' hf = .ok true ↔ hf = false
         ∧ (be16 ((d.take 10).drop 8) - (a * 256 + c) + lenTail d (a * 256 + c) (be16 ((d.take 10).drop 8))) % 65535 = 0
         ∧ a * 256 + c + (words16 (d.take 8)).sum ≠ 0))
     ∧ (be16 ((d.take 10).drop 8) < a * 256 + c →
-      (hrnpDec d' hf = .ok true ↔ hf = false ∧ a * 256 + c ≤ d.length
+      (hrnpDecOld d' hf = .ok true ↔ hf = false ∧ a * 256 + c ≤ d.length
         ∧ (a * 256 + c - be16 ((d.take 10).drop 8) + lenTail d (be16 ((d.take 10).drop 8)) (a * 256 + c)) % 65535 = 0
         ∧ be16 ((d.take 10).drop 8) + (words16 (d.take 8)).sum ≠ 0)) :=
   hrnp_relen_aux d d' a c _ _ hd r rfl rfl hf
@@ -434,12 +434,12 @@ theorem announced_val (d : Bytes) (h : 10 ≤ d.length) :
     be16 ((d.take 10).drop 8) = d.getD 8 0 * 256 + d.getD 9 0 := by
   rw [announced_eq d h, be16_pair]
 
-theorem hrnp_length_lowered (d : Bytes) (hd : hrnpDec d false = .ok true) (j y p : Nat)
+theorem hrnp_length_lowered (d : Bytes) (hd : hrnpDecOld d false = .ok true) (j y p : Nat)
     (hj : j = 8 ∨ j = 9) (hp : 0 < p) (hy : d.getD j 0 = y + p) (hf : Bool) :
-    hrnpDec (d.set j y) hf = .ok true ↔ hf = false
+    hrnpDecOld (d.set j y) hf = .ok true ↔ hf = false
       ∧ (p * wt j + lenTail d (be16 ((d.take 10).drop 8) - p * wt j) (be16 ((d.take 10).drop 8))) % 65535 = 0
       ∧ be16 ((d.take 10).drop 8) - p * wt j + (words16 (d.take 8)).sum ≠ 0 := by
-  obtain ⟨h12, _, _, _, _⟩ := (hrnpDec_iff d false).mp hd
+  obtain ⟨h12, _, _, _, _⟩ := (hrnpDecOld_iff d false).mp hd
   have hPe := announced_val d (by omega)
   rcases hj with rfl | rfl
   · have hw : wt 8 = 256 := rfl
@@ -453,13 +453,13 @@ theorem hrnp_length_lowered (d : Bytes) (hd : hrnpDec d false = .ok true) (j y p
       (relen_set9 d (by omega) y) rfl (by omega) hf).1 (by omega)
     rw [aux, show be16 ((d.take 10).drop 8) - (be16 ((d.take 10).drop 8) - p * 1) = p * 1 by omega]
 
-theorem hrnp_length_raised (d : Bytes) (hd : hrnpDec d false = .ok true) (j y p : Nat)
+theorem hrnp_length_raised (d : Bytes) (hd : hrnpDecOld d false = .ok true) (j y p : Nat)
     (hj : j = 8 ∨ j = 9) (hp : 0 < p) (hy : y = d.getD j 0 + p) (hf : Bool) :
-    hrnpDec (d.set j y) hf = .ok true ↔ hf = false
+    hrnpDecOld (d.set j y) hf = .ok true ↔ hf = false
       ∧ be16 ((d.take 10).drop 8) + p * wt j ≤ d.length
       ∧ (p * wt j + lenTail d (be16 ((d.take 10).drop 8)) (be16 ((d.take 10).drop 8) + p * wt j)) % 65535 = 0
       ∧ be16 ((d.take 10).drop 8) + (words16 (d.take 8)).sum ≠ 0 := by
-  obtain ⟨h12, _, _, _, _⟩ := (hrnpDec_iff d false).mp hd
+  obtain ⟨h12, _, _, _, _⟩ := (hrnpDecOld_iff d false).mp hd
   have hPe := announced_val d (by omega)
   rcases hj with rfl | rfl
   · have hw : wt 8 = 256 := rfl
@@ -477,25 +477,25 @@ theorem hrnp_length_raised (d : Bytes) (hd : hrnpDec d false = .ok true) (j y p 
 `len(data) >= hrnp_packet_len` fails -/
 theorem hrnp_length_raised_exact (d : Bytes) (h12 : 12 ≤ d.length)
     (hex : d.length = be16 ((d.take 10).drop 8)) (j y p : Nat) (hj : j = 8 ∨ j = 9) (hp : 0 < p)
-    (hy : y = d.getD j 0 + p) (hf : Bool) : hrnpDec (d.set j y) hf = .error .assertionError := by
+    (hy : y = d.getD j 0 + p) (hf : Bool) : hrnpDecOld (d.set j y) hf = .error .assertionError := by
   have hPe := announced_val d (by omega)
-  apply hrnpDec_too_short _ _ (by simp; omega)
+  apply hrnpDecOld_too_short _ _ (by simp; omega)
   rcases hj with rfl | rfl
   · rw [(relen_set8 d (by omega) y).field, be16_pair, List.length_set]; omega
   · rw [(relen_set9 d (by omega) y).field, be16_pair, List.length_set]; omega
 
 /-! ### a change that leaves the first twelve octets alone -/
 
-theorem hrnpDec_same_head (d d' : Bytes) (hd : hrnpDec d false = .ok true) (hl : d'.length = d.length)
+theorem hrnpDecOld_same_head (d d' : Bytes) (hd : hrnpDecOld d false = .ok true) (hl : d'.length = d.length)
     (hh : d'.take 12 = d.take 12) (hf : Bool) :
-    hrnpDec d' hf = .ok true ↔ hf = false ∧ hrnpChecksum (hrnpCovered d') = hrnpChecksum (hrnpCovered d) := by
-  obtain ⟨h12, hP, hop, _, hck⟩ := (hrnpDec_iff d false).mp hd
+    hrnpDecOld d' hf = .ok true ↔ hf = false ∧ hrnpChecksum (hrnpCovered d') = hrnpChecksum (hrnpCovered d) := by
+  obtain ⟨h12, hP, hop, _, hck⟩ := (hrnpDecOld_iff d false).mp hd
   have h10 : d'.take 10 = d.take 10 := by
     have := congrArg (List.take 10) hh
     simpa [List.take_take] using this
   have h3 : d'.getD 3 0 = d.getD 3 0 := by
     rw [← getD_take d' 3 12 (by omega), ← getD_take d 3 12 (by omega), hh]
-  rw [hrnpDec_iff, hl, h10, h3, hh, ← hck]
+  rw [hrnpDecOld_iff, hl, h10, h3, hh, ← hck]
   constructor
   · rintro ⟨_, _, _, h4, h5⟩; exact ⟨h4, h5⟩
   · rintro ⟨h4, h5⟩; exact ⟨h12, hP, hop, h4, h5⟩
